@@ -86,7 +86,8 @@ def create_default_dis_func(
 
         best_result = None
         best_discriminator = None
-        for discriminator in discriminators:
+        # Sorted, so ties between discriminators are broken independently of the hash seed.
+        for discriminator in sorted(discriminators):
             # maps Literal values (strings, ints...) to classes
             mapping = defaultdict(list)
 
